@@ -131,6 +131,27 @@ func (r *Run) blob(max int) []byte {
 		return []byte{}
 	case 1:
 		return r.Bytes(1)
+	case 3: // text with a tail (or head) a tidy-minded decoder may trim: NUL runs, blanks, line ends, dots, slashes
+		n := r.Rng.Intn(max + 1)
+		b := make([]byte, n)
+		for i := range b {
+			b[i] = byte('a' + r.Rng.Intn(26))
+		}
+		pad := []byte{0, 0, ' ', '\n', '.', '/', '\r', '\t'}
+		if r.Rng.Intn(2) == 0 { // a run of one such octet (a trim that removes one is not a trim that removes all)
+			ch := pad[r.Rng.Intn(len(pad))]
+			for k := 1 + r.Rng.Intn(3); k > 0; k-- {
+				b = append(b, ch)
+			}
+		} else {
+			for k := r.Rng.Intn(4); k > 0; k-- {
+				b = append(b, pad[r.Rng.Intn(len(pad))])
+			}
+		}
+		if r.Rng.Intn(4) == 0 {
+			b = append([]byte{pad[r.Rng.Intn(len(pad))]}, b...)
+		}
+		return b
 	case 2: // lengths around the limits people write down (63/64, 127/128/130, 255/256, ...)
 		return r.Bytes(r.Pick(62, 63, 64, 65, 122, 123, 124, 125, 126, 127, 128, 129, 130, 131, 253, 254, 255, 256, 257, 300, 1000))
 	}
@@ -860,6 +881,47 @@ func genC05(r *Run) {
 		add(append([]byte{1, 1, 2, 3}, tlvb(39, append([]byte{0}, nw...))...))
 		add(append(append([]byte{1, 1, 2, 3}, tlvb(56, tlvb(3, nw))...), 0, 8, 0, 2, 0, 1))
 		add(append([]byte{1, 1, 2, 3}, tlvb(3, append(make([]byte, 12), tlvb(24, nw)...))...))
+	}
+	// acceptance and value of an option do not depend on its neighbours: every known type (valid value), and every
+	// small name field over an alphabet of lengths / pointers / letters in the name-bearing options, each followed
+	// and preceded by an option whose code has a non-zero high octet (0x0100, 0x0117, 0x0203: the low octets are
+	// the codes of known types) or by a known one
+	neighbours := [][]byte{tlvb(0x0100, []byte{1, 2, 3}), tlvb(0x0117, make([]byte, 16)), tlvb(0x0203, make([]byte, 12)), tlvb(0xff18, []byte{1, 'a', 0}), tlvb(8, []byte{0, 1})}
+	withNeighbours := func(o []byte) {
+		for _, nb := range neighbours {
+			add(append(append([]byte{1, 1, 2, 3}, o...), nb...))
+			add(append(append([]byte{1, 1, 2, 3}, nb...), o...))
+		}
+	}
+	for _, c := range knownV6Codes {
+		for k := 0; k < r.N(2, 20); k++ {
+			if v := r.genOptCode(c, 1).wire; len(v) < 600 {
+				withNeighbours(tlvb(c, v))
+			}
+		}
+	}
+	{
+		alpha := []byte{0, 1, 2, 3, 0xc0, 0xc1, 'a'}
+		var rec func(cur []byte)
+		rec = func(cur []byte) {
+			if len(cur) > 0 {
+				withNeighbours(tlvb(24, cur))
+				if len(cur) <= 3 || r.Rng.Intn(4) == 0 {
+					withNeighbours(tlvb(39, append([]byte{0}, cur...)))
+					withNeighbours(tlvb(56, tlvb(3, cur)))
+				}
+			}
+			if len(cur) == r.N(4, 5) {
+				return
+			}
+			for _, a := range alpha {
+				rec(append(append([]byte{}, cur...), a))
+			}
+		}
+		rec(nil)
+		for _, nw := range [][]byte{{3, 'f', 'o', 'o'}, {1, 'a', 3, 'f', 'o', 'o', 0, 0xc0, 2}, {3, 'f', 'o', 'o', 0, 2, 'a', 'b', 0xc0, 0}, {1, 'a', 0, 1, 'b'}} {
+			withNeighbours(tlvb(24, nw))
+		}
 	}
 	// random / mutated messages up to 4096 octets
 	n := r.N(1500, 120000)
